@@ -1,2 +1,4 @@
 #include "c15_exec.h"
+#include "c15_flag.h"
 VH_CONFIG("st_full", [](vh::Case& c) { c15::run_case<Gudhi::Simplex_tree_options_full_featured>(c, c15::Gen{0 != 0, 1 != 0, 0 != 0}, "full"); });
+VH_CONFIG("st_flag_full", [](vh::Case& c) { c15::run_flag<Gudhi::Simplex_tree_options_full_featured>(c, "full"); });
